@@ -218,14 +218,25 @@ theorem init_mk (n : Int) (h1 : 1 ≤ n) (h2 : n ≤ 2147483648) :
   simp only [slotOf, winPos_zero c i (by omega) hi', List.length_nil, Nat.add_zero, Nat.not_lt_zero,
     if_false]
 
+theorem freshFrom_map (f : Nat → Slot) :
+    ∀ (n k : Nat), (∀ i, k ≤ i → i < k + n → f i = { value := 0, pos := i % two32 }) →
+      freshFrom k ((List.range' k n).map f) = true := by
+  intro n
+  induction n with
+  | zero => intro k _; rfl
+  | succ n ih =>
+    intro k hf
+    simp only [List.range'_succ, List.map_cons, freshFrom, hf k (Nat.le_refl _) (by omega),
+      beq_self_eq_true, Bool.true_and]
+    exact ih (k + 1) (fun i h1 h2 => hf i (by omega) (by omega))
+
 theorem fresh_mk (c : Nat) : (mkSync c 0 []).isFresh = true := by
   simp only [SyncRing.isFresh, mkSync, Nat.zero_mod, beq_self_eq_true, Bool.true_and,
-    List.length_nil, Nat.add_zero, List.length_map, List.length_range, List.all_eq_true,
-    List.mem_range]
-  intro i hi
-  simp only [List.getElem?_map, List.getElem?_range hi, Option.map_some, slotOf,
-    winPos_zero c i (by omega) hi, List.length_nil, Nat.add_zero, Nat.not_lt_zero, if_false,
-    beq_self_eq_true, Bool.and_self]
+    List.length_nil, Nat.add_zero, List.range_eq_range']
+  apply freshFrom_map
+  intro i _ hi
+  simp only [slotOf, winPos_zero c i (by omega) (by omega), List.length_nil, Nat.add_zero,
+    Nat.not_lt_zero, if_false]
 
 theorem warp_mk (c k : Nat) (hc : 0 < c) : (mkSync c 0 []).warp k = mkSync c k [] := by
   simp only [SyncRing.warp, mkSync, List.length_map, List.length_range, List.length_nil,
